@@ -735,17 +735,21 @@ func parent(known []knownFinding) int {
 		sigs = append(sigs, s)
 	}
 	sort.Strings(sigs)
+	unconfirmed := 0
 	for _, s := range sigs {
 		v := bySig[s]
 		a, err1 := replayInFreshProcess(v.File)
 		b, err2 := replayInFreshProcess(v.File)
 		if err1 != nil || err2 != nil || a.Infra != "" || b.Infra != "" {
 			fmt.Fprintf(os.Stderr, "simcheck: replay of a violation failed to run: %v %v\n", err1, err2)
-			return 2
+			unconfirmed++
+			continue
 		}
 		if !a.Violated || !b.Violated || a.Signature != s || b.Signature != s || a.LogHash != b.LogHash {
-			fmt.Fprintf(os.Stderr, "simcheck: non-reproducible violation (harness bug, not reported as a violation): %s\n  replay 1: %+v\n  replay 2: %+v\n", v.File, a, b)
-			return 2
+			// never reported as a violation; without any confirmed violation the check has no verdict (exit 2)
+			fmt.Fprintf(os.Stderr, "simcheck: non-reproducible violation (not reported as a violation): %s\n  replay 1: %+v\n  replay 2: %+v\n", v.File, a, b)
+			unconfirmed++
+			continue
 		}
 		fmt.Printf("violation: %s\n  minimised from %d to %d ops; run seed %d\n  expected: %s\n  observed: %s\n", s, v.OpsBefore, v.OpsAfter, v.RunSeed, trunc(a.Expected, 400), trunc(a.Observed, 600))
 		violLines = append(violLines, fmt.Sprintf("VIOLATION property=%s replay=%s", prop, v.File))
@@ -768,6 +772,9 @@ func parent(known []knownFinding) int {
 		prop, *fTier, tot.Runs, len(distinct), tot.Ops, tot.Steps, tot.HandOffs, tot.CrashPoints, wall, len(violLines), sum(tot.KnownHits), sum(tot.Foreign))
 	for _, l := range violLines {
 		fmt.Println(l)
+	}
+	if unconfirmed > 0 && exitCode == 0 {
+		return 2
 	}
 	return exitCode
 }
